@@ -22,6 +22,8 @@ const (
 var (
 	AllowedAssets       = []string{"btc", "lbtc"}
 	ErrSwapDoesNotExist = errors.New("swap does not exist")
+	// ErrSwapIdInUse is returned for a request that reuses the id of a swap this node already knows.
+	ErrSwapIdInUse = errors.New("swap id is already in use")
 	// ErrEmptyMessage is returned for a payload that decodes to no message (JSON null).
 	ErrEmptyMessage = errors.New("empty peerswap message")
 )
@@ -571,6 +573,13 @@ func (s *SwapService) OnSwapInRequestReceived(swapId *SwapId, peerId string, mes
 		premiumValue int64
 		err          error
 	)
+	// A request must not reuse the id of a swap we already know, whether it is
+	// active, finished or not yet restored after a restart.
+	if known, err := s.swapIdKnown(swapId); err != nil {
+		return err
+	} else if known {
+		return ErrSwapIdInUse
+	}
 	// Network is the desired on-chain network to use. This can be:
 	// Bitcoin: mainnet, testnet, signet, regtest
 	// Liquid: The field is left blank as the asset id also defines the bitcoinNetwork.
@@ -682,6 +691,13 @@ func (s *SwapService) OnSwapOutRequestReceived(swapId *SwapId, peerId string, me
 		premiumValue int64
 		err          error
 	)
+	// A request must not reuse the id of a swap we already know, whether it is
+	// active, finished or not yet restored after a restart.
+	if known, err := s.swapIdKnown(swapId); err != nil {
+		return err
+	} else if known {
+		return ErrSwapIdInUse
+	}
 	// Network is the desired on-chain network to use. This can be:
 	// Bitcoin: mainnet, testnet, signet, regtest
 	// Liquid: The field is left blank as the asset id also defines the bitcoinNetwork.
@@ -979,12 +995,33 @@ func (s *SwapService) RemoveActiveSwap(swapId string) {
 	delete(s.activeSwaps, swapId)
 }
 
+// swapIdKnown reports whether a swap with this id is active or stored.
+func (s *SwapService) swapIdKnown(swapId *SwapId) (bool, error) {
+	if _, err := s.GetActiveSwap(swapId.String()); err == nil {
+		return true, nil
+	}
+	_, err := s.swapServices.swapStore.GetData(swapId.String())
+	if err == nil {
+		return true, nil
+	}
+	if errors.Is(err, ErrDataNotAvailable) {
+		return false, nil
+	}
+	return false, err
+}
+
 // lockSwap locks in a swap. This function ensures that we only have one active
 // swap on a channel as required by the protocol.
 // Returns an error if the swap is already locked.
 func (s *SwapService) lockSwap(swapId, channelId string, fsm *SwapStateMachine) error {
 	s.Lock()
 	defer s.Unlock()
+
+	// A swap id identifies exactly one swap. Never let a second state machine
+	// take over the slot (and with it the stored record) of a known one.
+	if _, ok := s.activeSwaps[swapId]; ok {
+		return ErrSwapIdInUse
+	}
 
 	// Check if we already have an active swap on the same channel. The short
 	// channel id is compared in one spelling: LND writes it with ':' and CLN
